@@ -66,7 +66,10 @@ for d in dirs:
         rows.append((name, "no-build", ""))
         reset(head)
         continue
-    checks = [pid] + [c for c in meta.get("also", []) if c != pid] + [c for c in also_all if c != pid]
+    prev = meta.get("also")
+    if prev is None and isinstance(meta.get("checker"), dict):
+        prev = [c for c in meta["checker"] if c != pid]  # seedcheck --also records them only here
+    checks = [pid] + [c for c in (prev or []) if c != pid] + [c for c in also_all if c != pid]
     meta["checker"] = {}
     det = []
     for c in dict.fromkeys(checks):
